@@ -285,6 +285,19 @@ fn shaped_program(t: &Ty, a: &Val, b: &Val, sp: (u64, u64, u64), shape: &str) ->
     if shape == "match" {
         return format!("let x: {} = {la}\nmatch x {{\n  {lb} -> println(true)\n  _ -> println(false)\n}}\n", t.abra());
     }
+    if shape == "iface" {
+        // qualified interface-method calls: the only route to the prelude's `implement Equal/Ord for int/float/string`
+        // bodies (operators on built-ins are inlined, also in generic code)
+        let mut s = format!("let x: {} = {la}\nlet y: {} = {lb}\n", t.abra(), t.abra());
+        s.push_str("println(Equal.equal(x, y))\nprintln(not Equal.equal(x, y))\n");
+        if t.has_ord() {
+            s.push_str("println(Ord.less_than(x, y))\nprintln(Ord.less_than_or_equal(x, y))\nprintln(Ord.greater_than(x, y))\nprintln(Ord.greater_than_or_equal(x, y))\n");
+        }
+        if t.has_hash() {
+            s.push_str("println(Hash.hash(x))\nprintln(Hash.hash(y))\n");
+        }
+        return s;
+    }
     let mut s = String::new();
     let (x, y) = match shape {
         "vl" => { s.push_str(&format!("let x: {} = {la}\n", t.abra())); ("x".to_string(), lb) }
@@ -385,8 +398,9 @@ fn main() {
         let vs = scalars(&t, sp);
         for a in &vs {
             for b in &vs {
-                for shape in ["vl", "lv", "ll", "match"] {
+                for shape in ["vl", "lv", "ll", "match", "iface"] {
                     let ok = match shape {
+                        "iface" => true,
                         "vl" => literal_ok(b),
                         "lv" => literal_ok(a),
                         "ll" => literal_ok(a) && literal_ok(b),
@@ -397,6 +411,22 @@ fn main() {
                     jobs.push(Job { ty: t.clone(), a: a.clone(), b: b.clone(), src: shaped_program(&t, a, b, sp, shape), exhaustive: false, shape });
                 }
             }
+        }
+    }
+    // ---- qualified interface calls on compound types (exhaustive small ones, and a few mixed)
+    for (t, max_len) in [(tup(vec![tb(), tb()]), 0usize), (tup(vec![tb(), Ty::V, tb()]), 0), (arr(tb()), 2), (arr(tup(vec![tb(), Ty::V])), 1)] {
+        let vs = all_values(&t, max_len);
+        for a in &vs {
+            for b in &vs {
+                jobs.push(Job { ty: t.clone(), a: a.clone(), b: b.clone(), src: shaped_program(&t, a, b, sp, "iface"), exhaustive: true, shape: "iface" });
+            }
+        }
+    }
+    for t in [tup(vec![Ty::I, Ty::F]), tup(vec![Ty::S, Ty::I, tb()]), arr(Ty::S), arr(Ty::F)] {
+        for _ in 0..(if quick { 12 } else { 300 }) {
+            let a = rand_val(&t, &mut ctx.rng, sp);
+            let b = if ctx.rng.chance(1, 2) { mutate(&t, &a, &mut ctx.rng, sp) } else { a.clone() };
+            jobs.push(Job { ty: t.clone(), a: a.clone(), b: b.clone(), src: shaped_program(&t, &a, &b, sp, "iface"), exhaustive: false, shape: "iface" });
         }
     }
     // ---- compound types over ints/floats/strings: random pairs, half of them one mutation apart
@@ -427,7 +457,7 @@ fn main() {
         if j.shape == "vv" {
             return render(&j.ty, &run_program(&j.src));
         }
-        let src = if j.ty == Ty::F { format!("{float_prologue}{}", j.src) } else { j.src.clone() };
+        let src = if j.ty.has(&|t| matches!(t, Ty::F)) { format!("{float_prologue}{}", j.src) } else { j.src.clone() };
         let r = run_program(&src);
         if j.shape == "match" {
             return match (&r.outcome, r.out.trim()) {
